@@ -15,6 +15,8 @@ pub mod c08;
 pub mod c09;
 #[cfg(feature = "full")]
 pub mod c10;
+#[cfg(feature = "full")]
+pub mod c11;
 pub mod c12;
 #[cfg(feature = "full")]
 pub mod c13;
@@ -133,6 +135,15 @@ pub fn all() -> Vec<Spec> {
             run: c10::run,
             level: "exploration",
             rule: "12 services generated by the real tonic-build with names that collide by prefix/suffix/case/package (a.S, a.Sx, a.s, S, a.b.S, aa.S, a.SS, a, a.S.M, b.S, aS, A.S; methods M, Mx, m, MM, N, S); a random subset (0..6) is registered in two random orders through three construction paths (Routes::default().add_service, RoutesBuilder, Routes::new) with a random subset behind InterceptedService; 8 request paths per configuration from 20 classes (exact, extended/truncated names, case flip, trailing/empty/middle/extra segments, percent-encoded letter, query, cross-service method, odd fixed paths, look-alikes). Oracle: string equality of uri.path() with '/S/M' of a registered service decides exactly which handler runs once (reply tag checked); otherwise no handler and HTTP 200 + grpc-status 12; both orders must agree. Fingerprint = path class|#registered|construction styles|hit|path length class. Non-trivial = a non-exact path, or an exact path that hit.",
+            exhaustive: false,
+            assumptions: COMMON_ASSUMPTIONS,
+        },
+        #[cfg(feature = "full")]
+        Spec {
+            id: "C11",
+            run: c11::run,
+            level: "exploration",
+            rule: "tokens monitor: random FileDescriptorSets (package absent / single / nested; service names CamelCase, acronym, snake_case, with digits; method names CamelCase, snake_case, Rust keywords; 1..6 methods over the 4 streaming kinds; options emit_package, default stubs, arc self, client/server only) are run through the real tonic_build::configure().compile_fds; the output is parsed with syn and, per method, the client's PathAndQuery literal, GrpcMethod pair, Grpc::<shape> call, request/response types and request/response streaming kinds, the server's match-arm literal, grpc.<shape> call, *Service<Req> impl, Response type and dispatched trait method, SERVICE_NAME / NamedService::NAME are extracted and compared with expectations the harness derives from the descriptor ('/' [package '.'] Service '/' Method). regeneration leg (legs/C11.quick.sh): /repo is copied to a scratch directory, the real `codegen` binary is run there and every generated file of tonic-health, tonic-reflection and tonic-types is byte-compared with the committed one. Fingerprint = package class|emit_package|stubs|arc|client/server|#services|#methods. Non-trivial = every descriptor set.",
             exhaustive: false,
             assumptions: COMMON_ASSUMPTIONS,
         },
